@@ -330,7 +330,11 @@ class Struct(metaclass=MetaStruct):
 
     def _update(self, value):
         # check if direct copy is possible
-        if isinstance(value, self.__class__) and value._size == self._size:
+        if (
+            isinstance(value, self.__class__)
+            and value._size == self._size
+            and not self._has_refs  # relative references cannot be copied
+        ):
             self._buffer.update_from_xbuffer(
                 self._offset, value._buffer, value._offset, value._size
             )
